@@ -202,6 +202,7 @@ inline int harness_main(int argc, char** argv, Registry& reg) {
   bool enumerate = false;
   unsigned shard = 0, nshards = 1;
   double shrink_budget = 90;
+  std::string dump_dir;
   for (int i = 1; i < argc; i++) {
     std::string a = argv[i];
     auto next = [&]() -> std::string { return i + 1 < argc ? argv[++i] : ""; };
@@ -213,6 +214,7 @@ inline int harness_main(int argc, char** argv, Registry& reg) {
     else if (a == "--replay") replay = next();
     else if (a == "--known") { std::string k = next(); size_t p0 = 0; while (p0 <= k.size()) { size_t q = k.find(',', p0); if (q == std::string::npos) q = k.size(); if (q > p0) known_sigs().insert(k.substr(p0, q - p0)); p0 = q + 1; } }
     else if (a == "--shrink-budget") shrink_budget = atof(next().c_str());
+    else if (a == "--dump-cases") dump_dir = next();
     else if (a == "--enumerate") enumerate = true;
     else if (a == "--shard") shard = (unsigned)strtoul(next().c_str(), 0, 10);
     else if (a == "--nshards") nshards = (unsigned)strtoul(next().c_str(), 0, 10);
@@ -271,6 +273,7 @@ inline int harness_main(int argc, char** argv, Registry& reg) {
       throw;
     }
     detail::g_cur_log = nullptr;
+    if (!dump_dir.empty() && !is_replay) save_choices(dump_dir + "/case_" + std::to_string(st.evaluations) + ".choices", ch.log, header);
     if (cs.nontrivial) {
       st.nontrivial++;
       st.nontrivial_hashes.insert(hash_log(ch.log));
